@@ -19,6 +19,7 @@ CLANG = shutil.which("clang++-14") or "clang++"
 IRFLAGS = [
     "-std=c++14", "-O1", "-ffp-contract=off", "-fno-builtin", "-fno-unroll-loops",
     "-fno-vectorize", "-fno-slp-vectorize", "-fno-inline", "-fno-strict-aliasing",
+    "-mllvm", "-simplifycfg-sink-common=false",  # keep store addresses concrete (no phi-of-index)
     "-S", "-emit-llvm", "-w",
 ]
 
